@@ -33,6 +33,24 @@ CLAIMS["C05"] = dict(
     text="(M) one arbitrary iteration of the frame loop of Server::process_connection pushes exactly one response on every path and cannot leave the loop mid-iteration (an Err of process_frame becomes an error reply). (K) every reply shape with symbolic payloads serialises to bytes that parse back as exactly one frame consuming exactly those bytes, for arbitrary payload bytes including CR/LF; segmentation independence via the C20 prefix lemma.",
     note=TB + TM + "Reduced scope: socket behaviour (partial writes, flush retries), the parse-error path (protocol violations are logged and the connection is left waiting - see known findings), ordering across connections, pub/sub push frames.")
 
+CLAIMS["C07"] = dict(
+    engine="M",
+    technique="MIR -> SMT path encoding: unreachability of command execution while in_transaction (string theory over the command name, should_queue_command inlined), exactly-one-slot per queued command in the EXEC loop",
+    text="Solver-decided over the MIR of the current tree: (1) in Server::process_frame with in_transaction true, process_normal_command is unreachable and the only command-executing calls reachable are the transaction-control handlers (plus the listed known findings: pub/sub, MONITOR and REPLCONF are dispatched before the queue test); (2) one arbitrary iteration of handle_exec's execution loop pushes exactly one result on every path (an Err becomes an error frame in its slot) and cannot leave the loop; (3) EXEC passes the connection's database unchanged.",
+    note=TM + "Reduced scope: indivisibility with respect to other clients rests on the single command thread (architecture, not decided); interference from sweeper/BGSAVE/replication threads, disconnect handling and real schedules are outside.")
+
+CLAIMS["C11"] = dict(
+    engine="M+K",
+    technique="MIR -> SMT: write-command catalogue compared with the specification over all strings (z3 string theory), append-before-dispatch ordering; Kani: frames written to the log round-trip",
+    text="Solver-decided: (1) Server::is_write_command, encoded from its MIR as a function of one string variable, agrees with the catalogue of state-changing commands on every string (disagreements are enumerated by the solver); (2) in process_normal_command, with an AOF engine present and is_write_command true, append_command precedes every handler call on every feasible path (with a vacuity twin); (3) the served-blocking-pop path (wake_client) is checked for an append before its pop (known finding); (4) K: bulk-string frames of arbitrary bytes round-trip through the serializer/parser, so the file is a sequence of complete frames.",
+    note=TM + TB + "Reduced scope: dataset equality after replay is not decided (AofEngine::replay_command is a no-op in this code base: there is nothing to replay with); database context (no SELECT is logged), random-outcome commands logged verbatim (SPOP), fsync policy and rewrite are outside.")
+
+CLAIMS["C18"] = dict(
+    engine="M+K",
+    technique="MIR -> SMT argument-flow queries over the dispatch (database argument equals the connection's selection on every path) + Kani per-database non-interference of engine operations",
+    text="Solver-decided: (M) every handler called from process_normal_command that has a database parameter receives the caller's db unchanged on every feasible path, every reachable handler without one is in the reviewed database-independent list, EXEC and EVALSHA pass the database through; (K) engine operations on database a leave database b untouched (see evidence for the harness list).",
+    note=TM + TB + "Outside: SELECT inside MULTI acting on connection 0 (conn_id 0 during EXEC), WATCH baseline database vs EXEC-time database, blocking wake-ups' saved database (structural only).")
+
 NOT_APPLICABLE = {}
 
 NOTES = ("Solver-based checking of the real code. Engine K = Kani harness overlays appended to a scratch copy of /repo's current working tree "
